@@ -42,6 +42,12 @@ class LazyTop:
                 if cond is not False and bool(cond):
                     best = j
                     break
+            # numpy's argsort breaks ties in an unspecified way (SIMD sort): counterexample models are steered to a strict maximum so that they replay
+            for i in rest:
+                if i != best:
+                    c = s.x[best] > s.x[i]
+                    if isinstance(c, SymB):
+                        Ctx.prefer(c)
             top.append(best)
             rest.remove(best)
         return np.array(top[::-1])
